@@ -180,16 +180,21 @@ ASSUME_PWL = [
 ]
 PROPS['C09'].update({
     'level': 'other',
-    'units': ['pwl_tree', 'tree_iter', 'tree_path'],
-    'technique': 'Verus contracts on find_terminal / evaluate_decision / index_from_label / evaluate (label = decide(node, x), labels follow the path, evaluate == denoted partial function) + bounded replay (bc regions) for the polyhedra()/polyhedra_iter() streams',
+    'units': ['pwl_tree', 'tree_iter', 'tree_path', 'pwl_regions'],
+    'technique': 'Verus contracts on PolyhedraGen::{new, with_root, next, skip_subtree} (the half-spaces reported with a node are those of its path, in path order; lemmas: routed inputs satisfy them, strictly interior inputs are routed through the node), on find_terminal / evaluate_decision / index_from_label / evaluate (label = decide(node, x), labels follow the path, evaluate == denoted partial function) + bounded replay (bc regions) for the polyhedra()/polyhedra_iter() streams',
     'level_text': ('Mixed. PROVED modulo "f64 = reals" (Verus, all trees of any shape / index layout, all inputs): index_from_label computes sum 2^i[b_i]; evaluate_decision returns decide(node, x) '
                    '(bit i set iff row_i.x <= b_i); find_terminal returns a terminal together with exactly the labels of a path from the start node to it such that every label is the one '
                    'its decision selects for x (so x satisfies every reported path condition), returns None exactly when the selected branch of a reached decision is missing, and never '
                    'reaches its panic; evaluate(x) equals the denoted partial function tree_fn(root, x), undefinedness included. '
-                   'The node stream under polyhedra() is DfsPre: its next / skip_subtree step contracts (unit tree_iter, see C13) are discharged here as well. BOUNDED (bc regions): PolyhedraGen / PolyhedraIter streams (order, depth, sibling counters, path polytopes, all skip_subtree positions, single and repeated), interior points routed through '
+                   'The node stream under polyhedra() is DfsPre: its next / skip_subtree step contracts (unit tree_iter, see C13) are discharged here as well. PROVED for the generator itself (unit pwl_regions, binary trees): PolyhedraGen::next returns the DfsPre item and leaves in `predicates` exactly one half-space per edge of the path root -> node, in path order, '
+                   'each being the parent predicate for label 1 and its closed complement (rows and bias negated) for label 0 - also after any number of skip_subtree calls (invariant gen_inv over a ghost path; stack entries hang below the path: anc_inv); '
+                   'lemma_route_in_region: an input routed through the node satisfies every reported half-space; lemma_interior_routed: an input strictly inside all of them is routed through the node; Tree::path_to_node (unit tree_path). '
+                   'BOUNDED (bc regions): the PolyhedraIter wrapper, disjoint interiors and coverage as statements about the whole stream (order, depth, sibling counters, path polytopes, all skip_subtree positions, single and repeated), interior points routed through '
                    'their node, disjoint interiors, coverage of total trees.'),
     'design_ref': 'DESIGN.md §4 C09',
-    'assumptions': ASSUME_COMMON + ASSUME_SLAB + ASSUME_ND + ASSUME_PWL + ASSUME_BC,
+    'assumptions': ASSUME_COMMON + ASSUME_SLAB + ASSUME_ND + ASSUME_PWL + ASSUME_BC + [
+        'unit pwl_regions: PolyhedraGen::next is verified for K = 2 with two ghost arguments (the path of the previously returned node, a height map); its returned reference `&self.predicates` is dropped from the signature (the list is read from self.predicates / current_polytope()); `tree.node_value(i)` is read as tree.tree_node(i).value (rule N2); `&aff.mat * factor` is written Mul::mul(&aff.mat, factor) (rule O1); the literals 1.0 / -1.0 are flit helpers; the DfsPre contracts are taken over from unit tree_iter (//@assumed); traversal starts at the tree root',
+    ],
 })
 PROPS['C02']['units'] = ['pwl_schema', 'pwl_tree']
 PROPS['C02']['level_text'] = PROPS['C02']['level_text'].replace('BOUNDED (bc compose', 'Also PROVED at tree level: AffTree::apply_func / apply_func_at_node compose the affine map on the left of exactly the terminals, keep decisions and cached states, and tree_fn(result, x) == tree_fn(old, x).map(a) for every x (the affine special case of the law). BOUNDED (bc compose')
